@@ -176,6 +176,77 @@ def all_mutants(pid):
     return res
 
 
+def data_mutants(pid, rng, n):
+    """one-entry edits of the space-group tables (sglib.py) and of the name dictionary (sg.py): the kind of slip that happens
+    while a neighbouring entry is being corrected.  C04 owns rotations, translations and metadata, C05 the reflection conditions."""
+    res = []
+    if pid not in ("C04", "C05"):
+        return res
+    path = "xfab/sglib.py"
+    lines = open(os.path.join(REPO, path)).read().split("\n")
+    cand = []
+    for i, text in enumerate(lines, start=1):
+        t = text.strip()
+        if pid == "C04":
+            if re.match(r"^\[\[-?\d,-?\d,-?\d\],\[-?\d,-?\d,-?\d\],\[-?\d,-?\d,-?\d\]\],?$", t):
+                cand.append((i, "rot"))
+            elif re.match(r"^\[-?\d\.\d+,-?\d\.\d+,-?\d\.\d+\],?$", t):
+                cand.append((i, "trans"))
+            elif re.match(r"^self\.(nsymop|nuniq) = \d+$", t):
+                cand.append((i, "count"))
+            elif re.match(r"^self\.Laue = ", t):
+                cand.append((i, "laue"))
+        else:
+            if "self.syscond = [" in t or re.match(r"^\d+(, \d+)+,?\]?$", t):
+                cand.append((i, "syscond"))
+    rng.shuffle(cand)
+    for (ln, kind) in cand:
+        text = lines[ln - 1]
+        new = None
+        if kind == "rot":
+            pos = [m for m in re.finditer(r"-?\d", text)]
+            m = rng.choice(pos)
+            v = int(m.group(0))
+            nv = {0: rng.choice([1, -1]), 1: rng.choice([0, -1]), -1: rng.choice([0, 1])}[v]
+            new = text[:m.start()] + str(nv) + text[m.end():]
+        elif kind == "trans":
+            pos = [m for m in re.finditer(r"-?\d\.\d+", text)]
+            m = rng.choice(pos)
+            alt = [x for x in ("0.000000", "0.500000", "0.250000", "0.750000", "0.333333", "0.666667") if x != m.group(0)]
+            new = text[:m.start()] + rng.choice(alt) + text[m.end():]
+        elif kind == "count":
+            m = re.search(r"\d+$", text)
+            new = text[:m.start()] + str(int(m.group(0)) * 2 if rng.random() < 0.5 else max(1, int(m.group(0)) // 2))
+        elif kind == "laue":
+            m = re.search(r'"([^"]+)"', text) or re.search(r"'([^']+)'", text)
+            alt = [x for x in ("-1", "2/m", "mmm", "4/m", "4/mmm", "-3", "-3m1", "-31m", "6/m", "6/mmm", "m-3", "m-3m") if x != m.group(1)]
+            new = text[:m.start(1)] + rng.choice(alt) + text[m.end(1):]
+        elif kind == "syscond":
+            pos = [m for m in re.finditer(r"(?<![\w\.])\d+(?![\w\.])", text)]
+            if not pos:
+                continue
+            m = rng.choice(pos)
+            v = int(m.group(0))
+            nv = {0: rng.choice([2, 4]), 2: rng.choice([0, 4]), 3: 0, 4: rng.choice([0, 2]), 6: rng.choice([0, 3, 2])}.get(v, 0)
+            new = text[:m.start()] + str(nv) + text[m.end():]
+        if new and new != text:
+            res.append({"pid": pid, "file": path, "line": ln, "what": "table %s entry" % kind, "old": text, "new": new})
+        if len(res) >= n:
+            break
+    if pid == "C04":
+        path = "xfab/sg.py"
+        lines = open(os.path.join(REPO, path)).read().split("\n")
+        cand = [i for i, t in enumerate(lines, start=1) if re.search(r"['\"]Sg\d+['\"]", t)]
+        rng.shuffle(cand)
+        for ln in cand[: max(2, n // 5)]:
+            text = lines[ln - 1]
+            m = re.search(r"Sg(\d+)", text)
+            k = int(m.group(1))
+            new = text[:m.start(1)] + str(k + 1 if k < 230 else 229) + text[m.end(1):]
+            res.append({"pid": pid, "file": path, "line": ln, "what": "dictionary entry", "old": text, "new": new})
+    return res
+
+
 def run_mutant(m, idx):
     d = tempfile.mkdtemp(prefix="xfab-am-")
     try:
@@ -252,8 +323,9 @@ def main():
             pick.append(m)
             if len(pick) >= per:
                 break
-        print("%s: %d candidate mutants, %d selected" % (pid, len(ms), len(pick)), flush=True)
-        todo += pick
+        dm = data_mutants(pid, rng, per)
+        print("%s: %d candidate mutants, %d selected, %d table edits" % (pid, len(ms), len(pick), len(dm)), flush=True)
+        todo += pick + dm
     results = []
     with ThreadPoolExecutor(max_workers=jobs) as ex:
         for r in ex.map(lambda im: run_mutant(im[1], im[0]), enumerate(todo)):
